@@ -117,6 +117,7 @@ func (e *Engine) Init() (*State, error) {
 		e.rig2 = NewRig(e.Sc.Rig)
 	}
 	s := e.rig.Genesis(e.Sc.Params, e.Sc.Funds, e.Sc.Extra)
+	s.Ms = e.Sc.SubSecondMs
 	for _, a := range e.Sc.Setup {
 		post, res := Exec(e.rig, e.Sc, s, a)
 		if !res.OK() {
@@ -136,7 +137,7 @@ func Exec(rig *Rig, sc *Scenario, pre *State, a Action) (*State, *StepResult) {
 	}
 	w := rig.Restore(pre)
 	var res StepResult
-	post := &State{Height: pre.Height, Time: pre.Time, Used: pre.Used, Msgs: pre.Msgs, Mon: pre.Mon}
+	post := &State{Height: pre.Height, Time: pre.Time, Ms: pre.Ms, Used: pre.Used, Msgs: pre.Msgs, Mon: pre.Mon}
 	switch {
 	case a.Kind == "E":
 		res = w.EndBlock()
